@@ -40,6 +40,7 @@ func checkC11(c *Check) {
 	c11OutcomeMatchesCase(c)
 	c11DestKeyIsTakeKey(c, "R10")
 	c11NoNegativeChannelSize(c, "R12")
+	c11GrantedMeansTaken(c, "R13")
 
 	// the endpoint's permits: C03.R5 / C03.immut (acquire/release pairing and key agreement in the SMTP session) are
 	// this property's rules for the endpoint scope; they are re-evaluated here.
